@@ -52,7 +52,7 @@ func trExpr(e ast.Expr) *expr {
 			}
 		}
 		switch x.Op {
-		case token.LAND, token.LOR, token.LSS, token.GTR, token.LEQ, token.GEQ, token.EQL, token.NEQ:
+		case token.LAND, token.LOR, token.LSS, token.GTR, token.LEQ, token.GEQ, token.EQL, token.NEQ, token.ADD:
 			return &expr{K: "bin", Op: x.Op.String(), L: trExpr(x.X), R: trExpr(x.Y)}
 		}
 		return &expr{K: "unknown", S: src(e)}
@@ -154,6 +154,25 @@ func isCallTo(target string) func(ast.Node) bool {
 		c, ok := n.(*ast.CallExpr)
 		return ok && src(c.Fun) == target
 	}
+}
+
+// returnsLike: a return statement whose text contains the given fragment
+func returnsLike(fragment string) func(ast.Node) bool {
+	return func(n ast.Node) bool {
+		r, ok := n.(*ast.ReturnStmt)
+		return ok && strings.Contains(src(r), fragment)
+	}
+}
+
+// mentioning keeps the conditions whose text contains the given fragment
+func mentioning(cs []ast.Expr, fragment string) []ast.Expr {
+	var out []ast.Expr
+	for _, c := range cs {
+		if strings.Contains(src(c), fragment) {
+			out = append(out, c)
+		}
+	}
+	return out
 }
 
 func isErrReturn(n ast.Node) bool {
@@ -332,6 +351,33 @@ func decisions(dir string) []decision {
 		add("can_use_index", trBody(f.Body.List))
 	} else {
 		add("can_use_index", nil)
+	}
+	// ---- lexer
+	lx := parse(dir, "lexer.go")
+	if f := findFunc(lx, "Lexer", "Next"); f != nil {
+		add("lx_leave_chunk", innermost(guards(f.Body, isAssignTo("l.inChunk"))))
+		add("lx_magic_end", innermost(guards(f.Body, returnsLike("nil, io.EOF"))))
+		add("lx_record_too_large", innermost(guards(f.Body, returnsLike("ErrRecordTooLarge"))))
+		add("lx_att_too_long", innermost(mentioning(guards(f.Body, isErrReturn), "math.MaxInt64")))
+		add("lx_grow_p", innermost(guards(f.Body, isCallTo("makeSafe"))))
+	} else {
+		add("lx_leave_chunk", nil)
+	}
+	if f := findFunc(lx, "", "loadChunk"); f != nil {
+		add("lx_nested", innermost(guards(f.Body, returnsLike("ErrNestedChunk"))))
+		add("lx_complen", outermost(mentioning(guards(f.Body, isErrReturn), "headerLen")))
+		add("lx_scratch_grow", outermost(mentioning(guards(f.Body, isCallTo("makeSafe")), "l.buf")))
+		add("lx_chunk_too_large", innermost(guards(f.Body, returnsLike("ErrChunkTooLarge"))))
+		add("lx_ubuf_grow", outermost(mentioning(guards(f.Body, isCallTo("makeSafe")), "uncompressedChunk")))
+		add("lx_usize_range", innermost(guards(f.Body, returnsLike("ErrLengthOutOfRange"))))
+		add("lx_crc_mismatch", innermost(guards(f.Body, returnsLike("errInvalidChunkCrc"))))
+	} else {
+		add("lx_nested", nil)
+	}
+	if f := findFunc(mc, "", "makeSafe"); f != nil {
+		add("make_safe_ok", innermost(guards(f.Body, returnsLike("make("))))
+	} else {
+		add("make_safe_ok", nil)
 	}
 	// ---- writer bookkeeping
 	wr := parse(dir, "writer.go")
